@@ -2,7 +2,7 @@ import Op2Proofs.Prt.Post
 import Op2Proofs.Prt.WriteFacts
 /-! parse → print: whatever the reader accepts is, byte for byte, the encoding of what it returns (plus the rest). -/
 namespace Op2.Prt
-open Op2 Op2.Parser
+open Op2 Op2.Parser Op2.Parser.PrtInv
 
 macro "u8eq" : tactic => `(tactic| (apply UInt8.toNat_inj.mp; simp only [UInt8.toNat_ofNat']; omega))
 
@@ -120,7 +120,7 @@ theorem inv_frameP : Inv frameP encFrame := by
 end Op2.Prt
 
 namespace Op2.Prt
-open Op2 Op2.Parser
+open Op2 Op2.Parser Op2.Parser.PrtInv
 
 theorem inv_paletteP : Inv paletteP (fun hp => hp.1 ++ encPalette hp.2) := by
   intro xs hp rest h
